@@ -118,3 +118,19 @@ Theorem C02_first_failure_reported : forall es i computed diff k,
                       + sum_posts (rev (l_posts st)) (p_account p) c + pa_get amt c.
 Proof. exact first_failure_reported. Qed.
 Print Assumptions C02_first_failure_reported.
+
+(* 4a. Conversely: if the entries before a transaction are accepted, its postings before i are
+   processed without error, and the assertion on posting i (whose amount, cost and lot
+   evaluate) is false of the live balance, then the ledger is rejected at that entry with
+   BalanceAssertionFailure pointing at posting i and carrying that balance. *)
+Theorem C02_false_rejected : forall es1 t es2 s i st p sa bc amt cl expected,
+  process es1 = (Ok s, length es1) ->
+  loop_upto s t i = Ok st -> nth_error (t_posts t) i = Some p ->
+  p_amount p = Some sa -> p_balance p = Some bc ->
+  eval_pa sa = Ok amt -> eval_cost_lot amt p = Ok cl -> eval_pa bc = Ok expected ->
+  let computed := snd (bal_add_pa (l_bal st) (p_account p) amt) in
+  ~ holds expected (a_get computed) ->
+  process (es1 ++ ETxn t :: es2)
+  = (Err (BalanceAssertionFailure i computed (assert_diff expected computed)), length es1).
+Proof. exact false_rejected. Qed.
+Print Assumptions C02_false_rejected.
